@@ -18,10 +18,12 @@ pub struct Out {
     pub two_phase: bool,
     pub sep_payload: Vec<u8>,
     pub bad: Vec<(String, String)>,
+    /// the honest proof was not accepted (C01's business): the follow-up challenge comparison is skipped
+    pub precondition_failed: bool,
 }
 
 pub fn run_prog<G: Cv>(env: &Env<G>, prog: &Program, seed: u64) -> Out {
-    let mut out = Out { events: 0, steps: 0, two_phase: !prog.closures.is_empty(), sep_payload: vec![], bad: vec![] };
+    let mut out = Out { events: 0, steps: 0, two_phase: !prog.closures.is_empty(), sep_payload: vec![], bad: vec![], precondition_failed: false };
     // ---- prover under recording
     let (pres, pev) = record_guarded(|| {
         let t = Transcript::new(program::LABEL);
@@ -58,12 +60,11 @@ pub fn run_prog<G: Cv>(env: &Env<G>, prog: &Program, seed: u64) -> Out {
         let _ = take_ctx(ctx);
         r
     });
-    let mut vtr = match vres {
-        Ok(Ok(t)) => t,
-        Ok(Err(e)) => {
-            out.bad.push(("verify returns Ok".into(), format!("Err({:?})", e)));
-            return out;
-        }
+    let mut vtr: Option<Transcript> = match vres {
+        Ok(Ok(t)) => Some(t),
+        // an honest proof that is not accepted is C01's business; the transcript discipline is
+        // still judged on everything both roles recorded
+        Ok(Err(_)) => None,
         Err(m) => {
             out.bad.push(("verify returns".into(), format!("panicked: {}", m)));
             return out;
@@ -140,12 +141,16 @@ pub fn run_prog<G: Cv>(env: &Env<G>, prog: &Program, seed: u64) -> Out {
         }
     }
     // (4) the returned transcripts drive identical follow-up challenges
-    let mut a = [0u8; 32];
-    let mut b = [0u8; 32];
-    ptr.challenge_bytes(b"follow-up", &mut a);
-    vtr.challenge_bytes(b"follow-up", &mut b);
-    if a != b {
-        out.bad.push(("returned transcripts yield the same next challenge".into(), "different".into()));
+    if let Some(vtr) = vtr.as_mut() {
+        let mut a = [0u8; 32];
+        let mut b = [0u8; 32];
+        ptr.challenge_bytes(b"follow-up", &mut a);
+        vtr.challenge_bytes(b"follow-up", &mut b);
+        if a != b {
+            out.bad.push(("returned transcripts yield the same next challenge".into(), "different".into()));
+        }
+    } else {
+        out.precondition_failed = true;
     }
     out
 }
@@ -249,6 +254,9 @@ pub fn main(o: &Opts) -> i32 {
                         sep1.insert(out.sep_payload.clone());
                     }
                     rep.count(if out.two_phase { "2phase runs" } else { "1phase runs" }, 1);
+                    if out.precondition_failed {
+                        rep.count("honest proof not accepted (C01's business): follow-up comparison skipped", 1);
+                    }
                     for (e, ob) in out.bad {
                         let case = json!({"curve": curve, "program": p.name(), "check": e});
                         rep.count("violation", 1);
